@@ -2,7 +2,7 @@
 # usage: tools/verify_seed.sh <PROP> <N>   - confirms a seeded change from /tmp/seed-<PROP> and stores it as seeded/<PROP>-<N>
 # (1) the patch is applied in the worktree and its library is built; (2) the 10 baseline tests pass there;
 # (3) the demonstration fails against the changed library and (4) passes against the unchanged /repo/_build library.
-P=$1; N=${2:-1}; W=/tmp/seed-$P; D=/verif/seeded/$P-$N
+P=$1; N=${2:-1}; W=/tmp/seed-$P-$N; [ -d $W ] || W=/tmp/seed-$P; D=/verif/seeded/$P-$N
 set -e
 mkdir -p $D
 cp $W/_seed/patch.diff $W/_seed/demo.cpp $W/_seed/meta.json $D/
